@@ -9,34 +9,34 @@ open AGV.Core AGV.Core.PAst AGV.Core.Sdl AGV.Model.Sdl AGV.Spec.Literal AGV.Spec
 
 -- ------------------------------------------------------------------ lexing a type definition
 
-theorem Lx_enumValues (o : Opts) (ho : o.federation = false) (vs : List (Text × Attrs)) (hvs : ∀ v ∈ vs, SkelEnumVal v)
+theorem Lx_enumValues (o : Opts) (vs : List (Text × Attrs)) (hvs : ∀ v ∈ vs, SkelEnumVal v)
     (rest : Text) (ts : List Tok) (h : Lx rest ts) :
-    Lx ((vs.map (exportEnumValue Defects.none o)).flatten ++ rest) (enumToks vs ++ ts) := by
+    Lx ((vs.map (exportEnumValue Defects.none o)).flatten ++ rest) (enumToks o vs ++ ts) := by
   induction vs with
   | nil => simpa [enumToks] using h
   | cons v vs ih =>
     have hv := hvs v List.mem_cons_self
     have h1 := ih (fun x hx => hvs x (List.mem_cons_of_mem _ hx))
     have hnl := Lx.ign (c := '\n') (by decide) h1
-    have hap := Lx_itemApps v.2 hv.attrs _ _ (nameEnd_of_ignored '\n' _ (by decide)) hnl
-    have hve := itemApps_valEnd v.2 ('\n' :: ((vs.map (exportEnumValue Defects.none o)).flatten ++ rest)) (valEnd_ign '\n' _ (by decide))
+    have hap := Lx_itemApps o v.2 hv.attrs _ _ (valEnd_ign '\n' _ (by decide)) hnl
+    have hve := itemApps_valEnd o v.2 ('\n' :: ((vs.map (exportEnumValue Defects.none o)).flatten ++ rest)) (valEnd_ign '\n' _ (by decide))
     have h2 := Lx_optDesc o 1 v.2.desc _ _ (Lx.ws (tab_ignored o) (Lx.name (n := v.1) hv.name hve.nameEnd hap))
     have e : exportEnumValue Defects.none o v = optDescription Defects.none o 1 v.2.desc ++ (tab o ++ (v.1 ++
-        (writeDeprecated Defects.none v.2.dep ++ (dirApps v.2.dirs ++ ['\n'])))) := by
-      simp [exportEnumValue, fedAttrs_off o ho]
+        (writeDeprecated Defects.none v.2.dep ++ (fedAttrs Defects.none o v.2 ++ (dirApps v.2.dirs ++ ['\n']))))) := by
+      simp [exportEnumValue]
     simpa [enumToks, enumValToks, e, List.append_assoc] using h2
 
-theorem Lx_inputFields (o : Opts) (ho : o.federation = false) (fs : List InputVal) (hfs : ∀ f ∈ fs, SkelIv f)
+theorem Lx_inputFields (o : Opts) (fs : List InputVal) (hfs : ∀ f ∈ fs, SkelIv f)
     (rest : Text) (ts : List Tok) (h : Lx rest ts) :
-    Lx ((fs.map (exportInputField Defects.none o)).flatten ++ rest) (ivsToks fs ++ ts) := by
+    Lx ((fs.map (exportInputField Defects.none o)).flatten ++ rest) (ivsToks o fs ++ ts) := by
   induction fs with
   | nil => simpa [ivsToks] using h
   | cons f fs ih =>
     have hf := hfs f List.mem_cons_self
     have h1 := ih (fun x hx => hfs x (List.mem_cons_of_mem _ hx))
-    have h2 : Lx ('\n' :: ((fs.map (exportInputField Defects.none o)).flatten ++ rest)) (ivsToks fs ++ ts) :=
+    have h2 : Lx ('\n' :: ((fs.map (exportInputField Defects.none o)).flatten ++ rest)) (ivsToks o fs ++ ts) :=
       Lx.ign (by decide) h1
-    have h3 := Lx_optDesc o 1 f.a.desc _ _ (Lx.ws (tab_ignored o) (Lx_inputValue o ho f hf _ _ (valEnd_ign '\n' _ (by decide)) h2))
+    have h3 := Lx_optDesc o 1 f.a.desc _ _ (Lx.ws (tab_ignored o) (Lx_inputValue o f hf _ _ (valEnd_ign '\n' _ (by decide)) h2))
     have e : exportInputField Defects.none o f = optDescription Defects.none o 1 f.a.desc ++ (tab o ++ (writeInputValue Defects.none f ++
         (fedAttrs Defects.none o f.a ++ (dirApps f.a.dirs ++ ['\n'])))) := by
       simp [exportInputField]
@@ -74,82 +74,168 @@ theorem Lx_specifiedBy (u rest : Text) (ts : List Tok) (h : Lx rest ts) :
 theorem braces_nameEnd (body rest : Text) : NameEnd (s " {\n" ++ body ++ s "}\n\n" ++ rest) := by
   simp only [s]; exact nameEnd_of_ignored ' ' _ (by decide)
 
-theorem Lx_typeDef (o : Opts) (ho : o.federation = false) (t : TypeDef) (hs : SkelType t) (rest : Text) (ts : List Tok)
+theorem braces_valEnd (body rest : Text) : ValEnd (s " {\n" ++ body ++ s "}\n\n" ++ rest) := by
+  simp only [s]; exact valEnd_ign ' ' _ (by decide)
+
+/-- federation attributes, then custom directive applications (scalar, interface, union, enum,
+    input object) -/
+theorem Lx_fedDirs (o : Opts) (a : Attrs) (ha : TypeAttrs a) (rest : Text) (ts : List Tok) (hr : ValEnd rest) (h : Lx rest ts) :
+    Lx (fedAttrs Defects.none o a ++ (dirApps a.dirs ++ rest)) (dirsToks (fedApps o a ++ a.dirs) ++ ts) := by
+  have h1 := Lx_dirApps a.dirs ha.dirs rest ts hr.nameEnd h
+  have h2 := Lx_fedAttrs o a _ _ (dirApps_valEnd a.dirs rest hr) h1
+  simpa [dirsToks_append, List.append_assoc] using h2
+
+theorem fedDirs_valEnd (o : Opts) (a : Attrs) (rest : Text) (hr : ValEnd rest) :
+    ValEnd (fedAttrs Defects.none o a ++ (dirApps a.dirs ++ rest)) :=
+  fedAttrs_valEnd o a _ (dirApps_valEnd a.dirs rest hr)
+
+/-- custom directive applications, then federation attributes (object type) -/
+theorem Lx_dirsFed (o : Opts) (a : Attrs) (ha : TypeAttrs a) (rest : Text) (ts : List Tok) (hr : ValEnd rest) (h : Lx rest ts) :
+    Lx (dirApps a.dirs ++ (fedAttrs Defects.none o a ++ rest)) (dirsToks (a.dirs ++ fedApps o a) ++ ts) := by
+  have h1 := Lx_fedAttrs o a rest ts hr h
+  have h2 := Lx_dirApps a.dirs ha.dirs _ _ (fedAttrs_valEnd o a rest hr).nameEnd h1
+  simpa [dirsToks_append, List.append_assoc] using h2
+
+theorem dirsFed_valEnd (o : Opts) (a : Attrs) (rest : Text) (hr : ValEnd rest) :
+    ValEnd (dirApps a.dirs ++ (fedAttrs Defects.none o a ++ rest)) :=
+  dirApps_valEnd a.dirs _ (fedAttrs_valEnd o a rest hr)
+
+/-- description, or `extend` for a type extension -/
+theorem Lx_prefix (o : Opts) (e : Bool) (dsc : Option Text) (body : Text) (toks : List Tok)
+    (hb : ∃ c r, body = c :: r ∧ nameStart c = true) (h : Lx body toks) :
+    Lx ((if e then [] else optDescription Defects.none o 0 dsc) ++ ((if e then s "extend " else []) ++ body))
+      (if e then .name (kw "extend") :: toks else descToks dsc ++ toks) := by
+  cases e
+  · simpa using Lx_optDesc o 0 dsc _ _ h
+  · have := Lx.nameI (n := kw "extend") (c := ' ') (by decide) (by decide) h
+    simpa [s, kw] using this
+
+/-- in a federation export the federation machinery's fields are not written: they must not be
+    registered as ordinary fields -/
+def FedFields (o : Opts) : TypeDef → Prop
+  | .object _ _ _ _ fs | .interface _ _ _ _ fs =>
+    ∀ f ∈ fs, (o.federation && (f.name = s "_service" || f.name = s "_entities")) = false
+  | _ => True
+
+theorem fieldShown (o : Opts) (f : FieldDef) (h1 : startsWith2Underscores f.name = false)
+    (h2 : (o.federation && (f.name = s "_service" || f.name = s "_entities")) = false) : FieldShown o f := by
+  unfold FieldShown; rw [h1, h2]; rfl
+
+theorem Lx_typeDef (o : Opts) (t : TypeDef) (hs : SkelType t) (hff : FedFields o t) (rest : Text) (ts : List Tok)
     (h : Lx rest ts) : Lx (exportType Defects.none o t ++ rest) (defToks o t ++ ts) := by
   cases t with
   | scalar n a url =>
     obtain ⟨hn, ha⟩ := hs
-    by_cases hsys : systemScalars.contains n = true
-    · have hm : n ∈ systemScalars := by simpa using hsys
-      simpa [exportType, defToks, isSystemScalar, hm] using h
-    · have hsys' : systemScalars.contains n = false := by simpa using hsys
-      have hm : n ∉ systemScalars := by simpa using hsys'
+    by_cases hsys : isSystemScalar o (.scalar n a url) = true
+    · have hsys2 := hsys
+      simp only [isSystemScalar] at hsys2
+      have hc : n ∈ systemScalars ∨ (o.federation = true ∧ n ∈ federationScalars) := by simpa using hsys2
+      simpa [exportType, defToks, hsys, hc] using h
+    · have hsys' : isSystemScalar o (.scalar n a url) = false := by simpa using hsys
+      have hsys3 := hsys'
+      simp only [isSystemScalar] at hsys3
+      have hsys2 : ¬ (n ∈ systemScalars ∨ (o.federation = true ∧ n ∈ federationScalars)) := by simpa using hsys3
       have h1 : Lx ('\n' :: '\n' :: rest) ts := Lx.ign (by decide) (Lx.ign (by decide) h)
-      have hd := Lx_dirApps a.dirs ha.dirs _ _ (nameEnd_of_ignored '\n' _ (by decide)) h1
-      have hdn := dirApps_nameEnd a.dirs ('\n' :: '\n' :: rest) (nameEnd_of_ignored '\n' _ (by decide))
-      have key : ∀ (sp : Text) (sa : List DirApp), NameEnd (sp ++ (dirApps a.dirs ++ '\n' :: '\n' :: rest)) →
-          Lx (sp ++ (dirApps a.dirs ++ '\n' :: '\n' :: rest)) (dirsToks sa ++ (dirsToks a.dirs ++ ts)) →
-          Lx (optDescription Defects.none o 0 a.desc ++ (kw "scalar" ++ ' ' :: (n ++ (sp ++ (dirApps a.dirs ++ '\n' :: '\n' :: rest)))))
-            (descToks a.desc ++ (.name (kw "scalar") :: .name n :: (dirsToks (sa ++ a.dirs) ++ ts))) := by
+      have hve : ValEnd ('\n' :: '\n' :: rest) := valEnd_ign '\n' _ (by decide)
+      have hd := Lx_fedDirs o a ha _ _ hve h1
+      have hdn := (fedDirs_valEnd o a _ hve).nameEnd
+      have key : ∀ (sp : Text) (sa : List DirApp), NameEnd (sp ++ (fedAttrs Defects.none o a ++ (dirApps a.dirs ++ '\n' :: '\n' :: rest))) →
+          Lx (sp ++ (fedAttrs Defects.none o a ++ (dirApps a.dirs ++ '\n' :: '\n' :: rest))) (dirsToks sa ++ (dirsToks (fedApps o a ++ a.dirs) ++ ts)) →
+          Lx (optDescription Defects.none o 0 a.desc ++ (kw "scalar" ++ ' ' :: (n ++ (sp ++ (fedAttrs Defects.none o a ++ (dirApps a.dirs ++ '\n' :: '\n' :: rest))))))
+            (descToks a.desc ++ (.name (kw "scalar") :: .name n :: (dirsToks (sa ++ (fedApps o a ++ a.dirs)) ++ ts))) := by
         intro sp sa hne hsp
         have h2 := Lx_head "scalar" (by decide) n hn _ _ hne hsp
         simpa [dirsToks_append, List.append_assoc] using Lx_optDesc o 0 a.desc _ _ h2
       cases hsb : o.specifiedBy with
       | false =>
         have := key [] [] (by simpa using hdn) (by simpa [dirsToks] using hd)
-        simpa [exportType, hsys', ho, hsb, fedAttrs_off o ho, defToks, isSystemScalar, hm, tdAttrs, defCore, typeApps, specApps,
+        simpa [exportType, hsys2, hsb, defToks, hsys', isExt, tdAttrs, defCore, typeApps, specApps,
           s, kw, List.append_assoc] using this
       | true =>
         cases url with
         | none =>
           have := key [] [] (by simpa using hdn) (by simpa [dirsToks] using hd)
-          simpa [exportType, hsys', ho, hsb, fedAttrs_off o ho, defToks, isSystemScalar, hm, tdAttrs, defCore, typeApps, specApps,
+          simpa [exportType, hsys2, hsb, defToks, hsys', isExt, tdAttrs, defCore, typeApps, specApps,
             s, kw, List.append_assoc] using this
         | some u =>
           have := key (s " @specifiedBy(url: \"" ++ tagText Defects.none u ++ s "\")") [⟨kwT "specifiedBy", [(kwT "url", .str u)]⟩]
             (by simp only [s]; exact nameEnd_of_ignored ' ' _ (by decide))
             (by simpa [List.append_assoc] using Lx_specifiedBy u _ _ hd)
-          simpa [exportType, hsys', ho, hsb, fedAttrs_off o ho, defToks, isSystemScalar, hm, tdAttrs, defCore, typeApps, specApps,
+          simpa [exportType, hsys2, hsb, defToks, hsys', isExt, tdAttrs, defCore, typeApps, specApps,
             s, kw, List.append_assoc] using this
   | object n a ext impls fs =>
     obtain ⟨hn, ha, himpl, _, hfs⟩ := hs
+    have hfs' : ∀ f ∈ fs, SkelField f ∧ FieldShown o f := fun f hf => ⟨(hfs f hf).1, fieldShown o f (hfs f hf).2 (hff f hf)⟩
     have hb := Lx_braces (exportFields Defects.none o fs) rest (fieldsToks o (sorted o.sortedFields (·.name) fs)) ts
-      (fun r t hrt => Lx_fields o ho fs hfs r t hrt) h
-    have hne := braces_nameEnd (exportFields Defects.none o fs) rest
-    have hd := Lx_dirApps a.dirs ha.dirs _ _ hne hb
-    have hi := Lx_implements impls himpl _ _ (dirApps_nameEnd a.dirs _ hne) hd
-    have hne2 : NameEnd (writeImplements impls ++ (dirApps a.dirs ++ (s " {\n" ++ exportFields Defects.none o fs ++ s "}\n\n" ++ rest))) := by
+      (fun r t hrt => Lx_fields o fs hfs' r t hrt) h
+    have hve := braces_valEnd (exportFields Defects.none o fs) rest
+    have hd := Lx_dirsFed o a ha _ _ hve hb
+    have hdn := (dirsFed_valEnd o a _ hve).nameEnd
+    have hi := Lx_implements impls himpl _ _ hdn hd
+    have hne2 : NameEnd (writeImplements impls ++ (dirApps a.dirs ++ (fedAttrs Defects.none o a ++ (s " {\n" ++ exportFields Defects.none o fs ++ s "}\n\n" ++ rest)))) := by
       unfold writeImplements; split
-      · simpa using dirApps_nameEnd a.dirs _ hne
+      · simpa using hdn
       · simp only [s]; exact nameEnd_of_ignored ' ' _ (by decide)
     have h2 := Lx_head "type" (by decide) n hn _ _ hne2 hi
-    have e : exportType Defects.none o (.object n a ext impls fs) ++ rest =
-        optDescription Defects.none o 0 a.desc ++ (kw "type" ++ ' ' :: (n ++ (writeImplements impls ++ (dirApps a.dirs ++
-          (s " {\n" ++ exportFields Defects.none o fs ++ s "}\n\n" ++ rest))))) := by
-      simp only [exportType, ho, Bool.false_and, Bool.false_eq_true, if_false, fedAttrs_off o ho]
-      simp [s, kw, List.append_assoc]
-    rw [e]
-    simpa [defToks, isSystemScalar, tdAttrs, defCore, typeApps, List.append_assoc] using Lx_optDesc o 0 a.desc _ _ h2
+    have hD : Defects.none.extendKeepsDescription = false := rfl
+    cases hfe : (o.federation && ext) with
+    | false =>
+      have h3 := Lx_optDesc o 0 a.desc _ _ h2
+      have e : exportType Defects.none o (.object n a ext impls fs) ++ rest =
+          optDescription Defects.none o 0 a.desc ++
+            (kw "type" ++ ' ' :: (n ++ (writeImplements impls ++ (dirApps a.dirs ++ (fedAttrs Defects.none o a ++
+            (s " {\n" ++ exportFields Defects.none o fs ++ s "}\n\n" ++ rest)))))) := by
+        simp only [exportType, hD, hfe, Bool.not_false, Bool.and_true, Bool.false_eq_true, if_false]
+        simp [s, kw, List.append_assoc]
+      rw [e]
+      simpa [defToks, isSystemScalar, isExt, hfe, tdAttrs, defCore, typeApps, List.append_assoc] using h3
+    | true =>
+      have h3 := Lx.nameI (n := kw "extend") (c := ' ') (by decide) (by decide) h2
+      have e : exportType Defects.none o (.object n a ext impls fs) ++ rest =
+          kw "extend" ++ ' ' ::
+            (kw "type" ++ ' ' :: (n ++ (writeImplements impls ++ (dirApps a.dirs ++ (fedAttrs Defects.none o a ++
+            (s " {\n" ++ exportFields Defects.none o fs ++ s "}\n\n" ++ rest)))))) := by
+        simp only [exportType, hD, hfe, Bool.not_false, Bool.and_true, if_true]
+        simp [s, kw, List.append_assoc]
+      rw [e]
+      simpa [defToks, isSystemScalar, isExt, hfe, tdAttrs, defCore, typeApps, List.append_assoc] using h3
   | interface n a ext impls fs =>
     obtain ⟨hn, ha, himpl, _, hfs⟩ := hs
+    have hfs' : ∀ f ∈ fs, SkelField f ∧ FieldShown o f := fun f hf => ⟨(hfs f hf).1, fieldShown o f (hfs f hf).2 (hff f hf)⟩
     have hb := Lx_braces (exportFields Defects.none o fs) rest (fieldsToks o (sorted o.sortedFields (·.name) fs)) ts
-      (fun r t hrt => Lx_fields o ho fs hfs r t hrt) h
-    have hne := braces_nameEnd (exportFields Defects.none o fs) rest
-    have hd := Lx_dirApps a.dirs ha.dirs _ _ hne hb
-    have hi := Lx_implements impls himpl _ _ (dirApps_nameEnd a.dirs _ hne) hd
-    have hne2 : NameEnd (writeImplements impls ++ (dirApps a.dirs ++ (s " {\n" ++ exportFields Defects.none o fs ++ s "}\n\n" ++ rest))) := by
+      (fun r t hrt => Lx_fields o fs hfs' r t hrt) h
+    have hve := braces_valEnd (exportFields Defects.none o fs) rest
+    have hd := Lx_fedDirs o a ha _ _ hve hb
+    have hdn := (fedDirs_valEnd o a _ hve).nameEnd
+    have hi := Lx_implements impls himpl _ _ hdn hd
+    have hne2 : NameEnd (writeImplements impls ++ (fedAttrs Defects.none o a ++ (dirApps a.dirs ++ (s " {\n" ++ exportFields Defects.none o fs ++ s "}\n\n" ++ rest)))) := by
       unfold writeImplements; split
-      · simpa using dirApps_nameEnd a.dirs _ hne
+      · simpa using hdn
       · simp only [s]; exact nameEnd_of_ignored ' ' _ (by decide)
     have h2 := Lx_head "interface" (by decide) n hn _ _ hne2 hi
-    have e : exportType Defects.none o (.interface n a ext impls fs) ++ rest =
-        optDescription Defects.none o 0 a.desc ++ (kw "interface" ++ ' ' :: (n ++ (writeImplements impls ++ (dirApps a.dirs ++
-          (s " {\n" ++ exportFields Defects.none o fs ++ s "}\n\n" ++ rest))))) := by
-      have hD : Defects.none.interfaceDirectivesFirst = false := rfl
-      simp only [exportType, ho, Bool.false_and, Bool.false_eq_true, if_false, fedAttrs_off o ho, hD]
-      simp [s, kw, List.append_assoc]
-    rw [e]
-    simpa [defToks, isSystemScalar, tdAttrs, defCore, typeApps, List.append_assoc] using Lx_optDesc o 0 a.desc _ _ h2
+    have hD : Defects.none.extendKeepsDescription = false := rfl
+    have hD2 : Defects.none.interfaceDirectivesFirst = false := rfl
+    cases hfe : (o.federation && ext) with
+    | false =>
+      have h3 := Lx_optDesc o 0 a.desc _ _ h2
+      have e : exportType Defects.none o (.interface n a ext impls fs) ++ rest =
+          optDescription Defects.none o 0 a.desc ++
+            (kw "interface" ++ ' ' :: (n ++ (writeImplements impls ++ (fedAttrs Defects.none o a ++ (dirApps a.dirs ++
+            (s " {\n" ++ exportFields Defects.none o fs ++ s "}\n\n" ++ rest)))))) := by
+        simp only [exportType, hD, hD2, hfe, Bool.not_false, Bool.and_true, Bool.false_eq_true, if_false]
+        simp [s, kw, List.append_assoc]
+      rw [e]
+      simpa [defToks, isSystemScalar, isExt, hfe, tdAttrs, defCore, typeApps, List.append_assoc] using h3
+    | true =>
+      have h3 := Lx.nameI (n := kw "extend") (c := ' ') (by decide) (by decide) h2
+      have e : exportType Defects.none o (.interface n a ext impls fs) ++ rest =
+          kw "extend" ++ ' ' ::
+            (kw "interface" ++ ' ' :: (n ++ (writeImplements impls ++ (fedAttrs Defects.none o a ++ (dirApps a.dirs ++
+            (s " {\n" ++ exportFields Defects.none o fs ++ s "}\n\n" ++ rest)))))) := by
+        simp only [exportType, hD, hD2, hfe, Bool.not_false, Bool.and_true, Bool.false_eq_true, if_false, if_true]
+        simp [s, kw, List.append_assoc]
+      rw [e]
+      simpa [defToks, isSystemScalar, isExt, hfe, tdAttrs, defCore, typeApps, List.append_assoc] using h3
   | union n a ms =>
     obtain ⟨hn, ha, hne, hms⟩ := hs
     have h1 : Lx ('\n' :: '\n' :: rest) ts := Lx.ign (by decide) (Lx.ign (by decide) h)
@@ -160,68 +246,83 @@ theorem Lx_typeDef (o : Opts) (ho : o.federation = false) (t : TypeDef) (hs : Sk
       | cons m ms => simpa using hu
     have h3 : Lx (' ' :: '=' :: (unionMembers 0 ms ++ '\n' :: '\n' :: rest)) (.punct '=' :: (sepToks '|' ms ++ ts)) :=
       Lx.ign (by decide) (Lx.punct (by decide) hu')
-    have hd := Lx_dirApps a.dirs ha.dirs _ _ (nameEnd_of_ignored ' ' _ (by decide)) h3
-    have h4 := Lx_head "union" (by decide) n hn _ _ (dirApps_nameEnd a.dirs _ (nameEnd_of_ignored ' ' _ (by decide))) hd
+    have hve : ValEnd (' ' :: '=' :: (unionMembers 0 ms ++ '\n' :: '\n' :: rest)) := valEnd_ign ' ' _ (by decide)
+    have hd := Lx_fedDirs o a ha _ _ hve h3
+    have h4 := Lx_head "union" (by decide) n hn _ _ (fedDirs_valEnd o a _ hve).nameEnd hd
     have e : exportType Defects.none o (.union n a ms) ++ rest =
-        optDescription Defects.none o 0 a.desc ++ (kw "union" ++ ' ' :: (n ++ (dirApps a.dirs ++ ' ' :: '=' :: (unionMembers 0 ms ++ '\n' :: '\n' :: rest)))) := by
-      simp only [exportType, fedAttrs_off o ho]
+        optDescription Defects.none o 0 a.desc ++ (kw "union" ++ ' ' :: (n ++ (fedAttrs Defects.none o a ++ (dirApps a.dirs ++ ' ' :: '=' :: (unionMembers 0 ms ++ '\n' :: '\n' :: rest))))) := by
+      simp only [exportType]
       simp [s, kw, List.append_assoc]
     rw [e]
-    simpa [defToks, isSystemScalar, tdAttrs, defCore, typeApps, List.append_assoc] using Lx_optDesc o 0 a.desc _ _ h4
+    simpa [defToks, isSystemScalar, isExt, tdAttrs, defCore, typeApps, List.append_assoc] using Lx_optDesc o 0 a.desc _ _ h4
   | «enum» n a vs =>
     obtain ⟨hn, ha, _, hvs⟩ := hs
     have hb := Lx_braces ((sorted o.sortedEnum (·.1) vs).map (exportEnumValue Defects.none o)).flatten rest
-      (enumToks (sorted o.sortedEnum (·.1) vs)) ts
-      (fun r t hrt => Lx_enumValues o ho _ (fun v hv => hvs v ((sorted_mem _ _ _ _).mp hv)) r t hrt) h
-    have hne := braces_nameEnd ((sorted o.sortedEnum (·.1) vs).map (exportEnumValue Defects.none o)).flatten rest
-    have hd := Lx_dirApps a.dirs ha.dirs _ _ hne hb
-    have h2 := Lx_head "enum" (by decide) n hn _ _ (dirApps_nameEnd a.dirs _ hne) hd
+      (enumToks o (sorted o.sortedEnum (·.1) vs)) ts
+      (fun r t hrt => Lx_enumValues o _ (fun v hv => hvs v ((sorted_mem _ _ _ _).mp hv)) r t hrt) h
+    have hve := braces_valEnd ((sorted o.sortedEnum (·.1) vs).map (exportEnumValue Defects.none o)).flatten rest
+    have hd := Lx_fedDirs o a ha _ _ hve hb
+    have h2 := Lx_head "enum" (by decide) n hn _ _ (fedDirs_valEnd o a _ hve).nameEnd hd
     have e : exportType Defects.none o (.enum n a vs) ++ rest =
-        optDescription Defects.none o 0 a.desc ++ (kw "enum" ++ ' ' :: (n ++ (dirApps a.dirs ++ (s " {\n" ++ ((sorted o.sortedEnum (·.1) vs).map (exportEnumValue Defects.none o)).flatten ++
-          s "}\n\n" ++ rest)))) := by
-      simp only [exportType, fedAttrs_off o ho, sortByName_sorted]
+        optDescription Defects.none o 0 a.desc ++ (kw "enum" ++ ' ' :: (n ++ (fedAttrs Defects.none o a ++ (dirApps a.dirs ++ (s " {\n" ++ ((sorted o.sortedEnum (·.1) vs).map (exportEnumValue Defects.none o)).flatten ++
+          s "}\n\n" ++ rest))))) := by
+      simp only [exportType, sortByName_sorted]
       simp [s, kw, List.append_assoc]
     rw [e]
-    simpa [defToks, isSystemScalar, tdAttrs, defCore, typeApps, List.append_assoc] using Lx_optDesc o 0 a.desc _ _ h2
+    simpa [defToks, isSystemScalar, isExt, tdAttrs, defCore, typeApps, List.append_assoc] using Lx_optDesc o 0 a.desc _ _ h2
   | input n a oneof fs =>
     obtain ⟨hn, ha, _, hfs⟩ := hs
     have hb := Lx_braces ((sorted o.sortedFields (·.name) fs).map (exportInputField Defects.none o)).flatten rest
-      (ivsToks (sorted o.sortedFields (·.name) fs)) ts
-      (fun r t hrt => Lx_inputFields o ho _ (fun v hv => hfs v ((sorted_mem _ _ _ _).mp hv)) r t hrt) h
-    have hne := braces_nameEnd ((sorted o.sortedFields (·.name) fs).map (exportInputField Defects.none o)).flatten rest
-    have hd := Lx_dirApps (typeApps o (.input n a oneof fs)) (typeApps_wf o (.input n a oneof fs) ha) _ _ hne hb
-    have h2 := Lx_head "input" (by decide) n hn _ _ (dirApps_nameEnd _ _ hne) hd
+      (ivsToks o (sorted o.sortedFields (·.name) fs)) ts
+      (fun r t hrt => Lx_inputFields o _ (fun v hv => hfs v ((sorted_mem _ _ _ _).mp hv)) r t hrt) h
+    have hve := braces_valEnd ((sorted o.sortedFields (·.name) fs).map (exportInputField Defects.none o)).flatten rest
+    have hd := Lx_fedDirs o a ha _ _ hve hb
+    have hdn := (fedDirs_valEnd o a _ hve).nameEnd
+    have hone : Lx ((if oneof then s " @oneOf" else []) ++ (fedAttrs Defects.none o a ++ (dirApps a.dirs ++
+          (s " {\n" ++ ((sorted o.sortedFields (·.name) fs).map (exportInputField Defects.none o)).flatten ++ s "}\n\n" ++ rest))))
+        (dirsToks ((if oneof then [⟨kwT "oneOf", []⟩] else []) ++ (fedApps o a ++ a.dirs)) ++
+          .punct '{' :: (ivsToks o (sorted o.sortedFields (·.name) fs) ++ .punct '}' :: ts)) ∧
+        NameEnd ((if oneof then s " @oneOf" else []) ++ (fedAttrs Defects.none o a ++ (dirApps a.dirs ++
+          (s " {\n" ++ ((sorted o.sortedFields (·.name) fs).map (exportInputField Defects.none o)).flatten ++ s "}\n\n" ++ rest)))) := by
+      cases oneof
+      · exact ⟨by simpa [List.append_assoc] using hd, by simpa using hdn⟩
+      · have := Lx.ign (c := ' ') (by decide) (Lx.punct (c := '@') (by decide) (Lx.name (n := kwT "oneOf") (by decide) hdn hd))
+        refine ⟨by simpa [dirsToks_append, dirsToks, dirToks, s, kwT, List.append_assoc] using this, ?_⟩
+        simp only [s, ↓reduceIte]; exact nameEnd_of_ignored ' ' _ (by decide)
+    have h2 := Lx_head "input" (by decide) n hn _ _ hone.2 hone.1
     have e : exportType Defects.none o (.input n a oneof fs) ++ rest =
-        optDescription Defects.none o 0 a.desc ++ (kw "input" ++ ' ' :: (n ++ (dirApps (typeApps o (.input n a oneof fs)) ++
+        optDescription Defects.none o 0 a.desc ++ (kw "input" ++ ' ' :: (n ++ ((if oneof then s " @oneOf" else []) ++ (fedAttrs Defects.none o a ++ (dirApps a.dirs ++
           (s " {\n" ++ ((sorted o.sortedFields (·.name) fs).map (exportInputField Defects.none o)).flatten ++
-          s "}\n\n" ++ rest)))) := by
-      simp only [exportType, fedAttrs_off o ho, sortByName_sorted, typeApps]
-      cases oneof <;> simp [s, kw, kwT, dirApps, dirAppSdl, List.append_assoc]
+          s "}\n\n" ++ rest)))))) := by
+      simp only [exportType, sortByName_sorted]
+      simp [s, kw, List.append_assoc]
     rw [e]
-    simpa [defToks, isSystemScalar, tdAttrs, defCore, List.append_assoc] using Lx_optDesc o 0 a.desc _ _ h2
+    simpa [defToks, isSystemScalar, isExt, tdAttrs, defCore, typeApps, List.append_assoc] using Lx_optDesc o 0 a.desc _ _ h2
 
 
 -- ------------------------------------------------------------------ a list of type definitions
 
-theorem Lx_typeDefs (o : Opts) (ho : o.federation = false) (L : List TypeDef) (hL : ∀ t ∈ L, SkelType t) :
-    Lx ((L.map (exportType Defects.none o)).flatten) (L.flatMap (defToks o)) := by
+theorem Lx_typeDefs_then (o : Opts) (L : List TypeDef) (hL : ∀ t ∈ L, SkelType t ∧ FedFields o t)
+    (rest : Text) (ts : List Tok) (h : Lx rest ts) :
+    Lx ((L.map (exportType Defects.none o)).flatten ++ rest) (L.flatMap (defToks o) ++ ts) := by
   induction L with
-  | nil => exact Lx.nil
+  | nil => simpa using h
   | cons t L ih =>
-    have := Lx_typeDef o ho t (hL t List.mem_cons_self) _ _ (ih (fun x hx => hL x (List.mem_cons_of_mem _ hx)))
-    simpa using this
+    have := Lx_typeDef o t (hL t List.mem_cons_self).1 (hL t List.mem_cons_self).2 _ _ (ih (fun x hx => hL x (List.mem_cons_of_mem _ hx)))
+    simpa [List.append_assoc] using this
 
-/-- the exported text of a list of skeleton type definitions IS (lexes and parses to) the list of
-    definitions `describe` requires -/
-theorem parse_typeDefs (o : Opts) (ho : o.federation = false) (L : List TypeDef) (hL : ∀ t ∈ L, SkelType t)
-    (hne : L.filterMap (dType o) ≠ []) :
-    parseSchema ((L.map (exportType Defects.none o)).flatten) = some (L.filterMap (dType o)) := by
-  have hl := (Lx_typeDefs o ho L hL).tokens
+/-- the exported text of a list of well-formed type definitions IS (lexes and parses to) the list
+    of definitions it denotes (`xType`: those `describe` requires, with the directive applications
+    of fields and object types in the exporter's order) -/
+theorem parse_typeDefs (o : Opts) (L : List TypeDef) (hL : ∀ t ∈ L, SkelType t ∧ FedFields o t)
+    (hne : L.filterMap (xType o) ≠ []) :
+    parseSchema ((L.map (exportType Defects.none o)).flatten) = some (L.filterMap (xType o)) := by
+  have hl := (by simpa using Lx_typeDefs_then o L hL [] [] Lx.nil : Lx ((L.map (exportType Defects.none o)).flatten) (L.flatMap (defToks o))).tokens
   unfold parseSchema
   rw [hl]
   simp only [parseTokens]
-  rcases pDefs_toks o ho L hL ((L.flatMap (defToks o)).length + 1)
-    (by have := defs_le_toks o ho L hL; omega) with ⟨e1, _⟩ | ⟨_, e2⟩
+  rcases pDefs_toks o L (fun t ht => (hL t ht).1) ((L.flatMap (defToks o)).length + 1)
+    (by have := defs_le_toks o L (fun t ht => (hL t ht).1); omega) with ⟨e1, _⟩ | ⟨_, e2⟩
   · exact absurd e1 hne
   · exact e2
 
